@@ -28,6 +28,8 @@ CLAIMED = {
          "deterministic simulation + storage fault / crash-point enumeration (storage proxy, bbolt gofail failpoints), pre/post-state refinement oracle"),
  "C01": ("exploration", "7 C01", "Seeded histories of insert/update/delete/reopen/evict batches on a real shard (bbolt or memory backend) under seeded schedules of its internal pipeline goroutines; after every batch the complete stored state (id set, every document, point count) and every call's return values are compared with an independent reference model. Evidence, not proof: sampling of histories x schedules.",
          "deterministic simulation: seeded scheduler + reference model (refinement check after every operation)"),
+ "C15": ("exploration", "7 C15", "1-3 real ClusterNodes over the simulated transport with small per-shard point and size caps and small quotas; seeded sequences of insert requests (0-40 fresh ids, varied point sizes, seeded entry node; optionally one shard-level insert RPC refused cleanly by its server => failed range) and collection creations around the quota boundaries. Raw dumps of every shard file and node database after every request decide: exactly-one-shard placement of non-failed points, none for failed ones, contiguity of each shard's share of the id-sorted batch, the point cap, the count identity (raw and via GetShardsInfo), and that quota refusals leave all stored state logically unchanged. Executed-but-unacknowledged inserts are deliberately not injected (the property does not quantify over them).",
+         "deterministic simulation: multi-node cluster over a simulated transport + raw-file placement, cap, contiguity and conservation audits"),
  "C17": ("exploration", "7 C17", "1-3 real ClusterNodes (node database, shard manager, real shards on real files) joined by the simulated transport (semadb's msgpack codec and the net/rpc client are real; the server loop is a reflection dispatcher whose request handlers are simulator tasks). Seeded histories of insert / update / delete / search through seeded entry nodes over 1-6 shards, with one shard server killed and later restarted on its files during part of the history. After every request raw dumps of every shard file decide exactly-once placement; failed lists and their messages are compared with the model restricted to reachable shards; every point is read back with its model document through every live node; merged searches are checked for limit, distinctness, model documents and scores, global order, and exactness when limit <= 10.",
          "deterministic simulation: multi-node cluster over a simulated transport with node kill/restart + reference model and raw-file placement audit"),
 }
